@@ -199,7 +199,36 @@ def correspondence(ctx, model_ok, tmp):
                     kids = [x for x in reg.getCollectionChain(chain) if x != runs[c]]
                     reg.setCollectionChain(chain, kids)
                     try:
-                        b.removeRuns([runs[c]], unstore=True)
+                        if rng.random() < 0.4:
+                            # the removal happens inside a caching context that already knows the run: the same context must not
+                            # go on listing the run, answering for it, or accepting it as a search path
+                            from lsst.daf.butler import MissingCollectionError as _MCE
+
+                            ctx.count("rmrun-inside-caching-context")
+                            with reg.caching_context():
+                                list(reg.queryCollections())
+                                reg.getCollectionType(runs[c])
+                                b.removeRuns([runs[c]], unstore=True)
+                                still = []
+                                if runs[c] in set(reg.queryCollections()):
+                                    still.append("queryCollections still lists it")
+                                if runs[c] in {ci.name for ci in b.collections.query_info("*")}:
+                                    still.append("collections.query_info still lists it")
+                                try:
+                                    reg.getCollectionType(runs[c])
+                                    still.append("getCollectionType still answers for it")
+                                except _MCE:
+                                    pass
+                                try:
+                                    got_ = b.query_datasets(dts[0], collections=[runs[c]], find_first=False, explain=False, limit=None)
+                                    still.append(f"query_datasets over it returns {len(got_)} rows instead of reporting the missing collection")
+                                except _MCE:
+                                    pass
+                                if still:
+                                    viol(f"after {ops[-3:]}: removeRuns({c}) inside a caching context: " + "; ".join(still), f"rmrun-cached:{ops}",
+                                         {"kind": "history", "ops": ops + [line], "problems": still})
+                        else:
+                            b.removeRuns([runs[c]], unstore=True)
                         out = "ok"
                         gone = {i for i in o_reg if info[i][2] == c}
                         for s_ in (o_reg, o_ds, o_disk, o_tag, o_cal):
